@@ -180,9 +180,97 @@ func genC09(c *Ctx) {
 		c.Refuse("search.go: TopNSearch.Collector no longer calls Reverse; the search-before model does not apply:\n%s", root.Src(col))
 	}
 
+	// ---- the comparator, translated (c09tr.go)
+	translated := c09BytesVar(c, sp, "highTerm") + "\n" + c09BytesVar(c, sp, "lowTerm") + "\n" +
+		c09Func(c, sp, "SortOrder.Compare", "SortOrder_Compare",
+			[][2]string{{"o", string(c09Order)}, {"i", string(c09Match)}, {"j", string(c09Match)}}, c09Int) + "\n" +
+		c09Func(c, sp, "sortFirstLast.Value", "sortFirstLast_Value",
+			[][2]string{{"c", string(c09FirstLast)}}, c09Bytes) + "\n"
+	revDef, revLoop := c09ElemUpdate(c, sp, "SortOrder.Reverse", "SortOrder_Reverse_elem")
+	translated += revDef
+
+	// ---- how a sort value is produced and how the comparator's result is used (statement tables)
+	facts := &c01Facts{}
+	for _, m := range []string{"SortBy", "Sort.Desc", "Sort.MissingFirst", "Sort.Value", "MissingTextValue", "MissingTextValueSource.Value", "SortOrder.Compute"} {
+		_, lines := c01Skeleton(c, sp, "search", m, nil)
+		facts.addStmts(m, lines)
+	}
+	facts.d("SortOrder.Reverse", "loop", revLoop+" (every element, no index, field assignments only)")
+	cpk := c.ParseDir("search/collector")
+	{
+		// every call of the comparator in package collector, with the test applied to its result
+		var names []string
+		for n := range cpk.Files {
+			names = append(names, n)
+		}
+		sort.Strings(names)
+		for _, fnm := range names {
+			for _, d := range cpk.Files[fnm].Decls {
+				fd, ok := d.(*ast.FuncDecl)
+				if !ok || fd.Body == nil {
+					continue
+				}
+				c01Blocks(fd.Body, func(list []ast.Stmt) {
+					for i, st := range list {
+						// the call sits in this statement itself (not in a nested block)
+						var call *ast.CallExpr
+						ast.Inspect(st, func(m ast.Node) bool {
+							switch x := m.(type) {
+							case *ast.BlockStmt, *ast.FuncLit:
+								return false
+							case *ast.CallExpr:
+								if se, ok := x.Fun.(*ast.SelectorExpr); ok && (se.Sel.Name == "compare" || se.Sel.Name == "Compare") {
+									call = x
+								}
+							}
+							return true
+						})
+						if call == nil {
+							continue
+						}
+						where := fnm + " " + fd.Name.Name
+						switch x := st.(type) {
+						case *ast.AssignStmt:
+							// v := compare(…): the next statement tests v
+							if len(x.Lhs) != 1 || i+1 >= len(list) {
+								c.Refuse("search/collector %s: comparator result assigned in an unknown form: %s", where, cpk.Src(st))
+							}
+							use := ""
+							switch n := list[i+1].(type) {
+							case *ast.IfStmt:
+								use = "if " + c01Norm(cpk.Src(n.Cond))
+							case *ast.ReturnStmt:
+								use = c01Norm(cpk.Src(n))
+							default:
+								c.Refuse("search/collector %s: the statement after the comparator call is neither an if nor a return: %s", where, cpk.Src(n))
+							}
+							facts.d(where, c01Norm(cpk.Src(st)), use)
+						case *ast.IfStmt:
+							prev := "(first statement of its block)"
+							if i > 0 {
+								prev = c01Norm(cpk.Src(list[i-1]))
+							}
+							facts.d(where, "(in the condition; the statement before it: "+prev+")", "if "+c01Norm(cpk.Src(x.Cond)))
+						case *ast.ReturnStmt:
+							facts.d(where, "(returned)", c01Norm(cpk.Src(x)))
+						default:
+							c.Refuse("search/collector %s: comparator called in an unknown position: %s", where, cpk.Src(st))
+						}
+					}
+				})
+			}
+		}
+	}
+
 	var b strings.Builder
-	b.WriteString("/-! GENERATED by /verif/go/extract (c09.go) from search/sort.go and search.go of the repository under check.\nDo not edit: `./check C09` rewrites this file from the working tree on every run. -/\n")
-	b.WriteString("namespace BlugeGen.C09\n\n")
+	b.WriteString("import Bluge.C09.GoBind\n/-! GENERATED by /verif/go/extract (c09.go, c09tr.go) from search/sort.go, search/source.go, search/collector and search.go of the\nrepository under check. Do not edit: `./check C09` rewrites this file from the working tree on every run. -/\n")
+	b.WriteString("set_option linter.unusedVariables false\nnamespace BlugeGen.C09\n\n")
+	b.WriteString(translated)
+	b.WriteString("\n")
+	tables := c01LeanTables("X", "", facts)
+	tables = strings.TrimPrefix(tables, "namespace X\n\n")
+	tables = strings.TrimSuffix(tables, "end X\n")
+	b.WriteString(tables)
 	fmt.Fprintf(&b, "/-- `SortOrder.Copy` allocates new `Sort` objects (true) or copies the pointers only (false) -/\ndef copyIsDeep : Bool := %v\n\n", deep)
 	fmt.Fprintf(&b, "/-- `TopNSearch.Collector()` calls `Reverse` only on a value obtained from `s.sort.Copy()` -/\ndef collectorReversesACopy : Bool := %v\n\n", reversesACopy)
 	b.WriteString("/-- the fields `SortOrder.Reverse` negates in every element -/\ndef reverseFlips : List String := [")
@@ -197,4 +285,7 @@ func genC09(c *Ctx) {
 	c.Summary["copyIsDeep"] = deep
 	c.Summary["collectorReversesACopy"] = reversesACopy
 	c.Summary["reverseFlips"] = flipNames
+	c.Summary["translated"] = []string{"highTerm", "lowTerm", "SortOrder.Compare", "sortFirstLast.Value", "SortOrder.Reverse (element update)"}
+	c.Summary["statements"] = len(facts.stmts)
+	c.Summary["derived_facts"] = len(facts.derived)
 }
